@@ -25,8 +25,9 @@ VARIABLES tid, rid, l
 vars == <<tid, rid, l>>
 
 Case == Batch[tid]
-Cfg  == Case.cfg
 Run  == Case.runs[rid]
+\* the model of this run: the case's cfg unless the history changed the model before the run
+Cfg  == IF "cfg" \in DOMAIN Run THEN Run.cfg ELSE Case.cfg
 Opts == Run.opts
 Ev(i) == Run.ev[i]
 
@@ -35,7 +36,7 @@ RunCfg == IF Run.op = "backward" THEN BackwardCfg(Cfg, Run.args.due) ELSE Cfg
 Pre == IF rid > 1 THEN Case.runs[rid - 1].final ELSE Run.final
 IsSim == Run.op = "simulate"
 
-Check(name, cond) == cond \/ PrintT(<<"FAIL", name, Cfg.id, rid, l>>)
+Check(name, cond) == cond \/ PrintT(<<"FAIL", name, Case.cfg.id, rid, l>>)
 CheckAll(cl) == \A i \in DOMAIN cl: Check(cl[i][1], cl[i][2])
 On(p, cl) == IF p \in Props THEN cl ELSE <<>>
 
@@ -169,7 +170,7 @@ CmpClauses ==
 RunClauses ==
   CmpClauses
   \o (IF Run.op \in {"sort", "report"} THEN <<>> ELSE << <<"X.exact", Run.final.inexact = <<>> >> >>)
-  \o (IF Run.op \in {"sort", "report", "rebuild", "snapshot", "subconfig"} THEN <<>> ELSE On("C08", C08_H(Cfg, Run)))
+  \o (IF Run.op \in {"sort", "report", "rebuild", "snapshot", "subconfig", "add_dep"} THEN <<>> ELSE On("C08", C08_H(Cfg, Run)))
   \o (CASE Run.op = "sort" -> On("C11", C11_F(Cfg, Run)) \o << <<"L2.sort", C11_FConforms(Cfg, Run)>> >>
         [] Run.op = "report" -> On("C19", C19_F(Run))
         [] Run.op = "subconfig" -> On("C20", C20_Config(Run))
